@@ -556,6 +556,9 @@ func simpleConn(addr string, c connSpec, frames [][]byte, obs []frameObs, quiet 
 			wait := quiet
 			if got == 0 {
 				wait = 2 * quiet
+				if last {
+					wait = 3 * quiet // nothing follows that a late reply could still be attributed to
+				}
 			}
 			conn.SetReadDeadline(time.Now().Add(wait))
 			var szb [4]byte
